@@ -835,7 +835,10 @@ package psatoken
 // ---------------------------------------------------------------- iclaims.go: CBOR decoding
 
 // the profile a CBOR token declares: the text under key 265, "" when the key is absent or null
-//@ spec cborProfile(b Int) string = ite(cborHas265(b), cborText265(b), "")
+// the token's profile claim (C07): the eat_profile claim (key 265) if it is there, otherwise profile 1's
+// own profile claim (key -75000), otherwise none ("": profile 1 by default). Written from the statement:
+// a profile derived from profile 1 declares itself under -75000.
+//@ spec cborProfile(b Int) string = ite(cborHas265(b) && cborText265(b) != "", cborText265(b), ite(cborHasPsa(b), cborTextPsa(b), ""))
 
 // isCBORMap: the loop skips tag heads (major type 6) and tests major type 5. Its index / slice safety,
 // termination and frame are proved; that this IS "a map under its tags" for well-formed input is the
@@ -1095,10 +1098,10 @@ package psatoken
 
 // ---------------------------------------------------------------- bounded audits of the assumed codec contracts (real libraries, end to end)
 
-//@ bounded[C09] cbor-round-trip : 32 valid claims-sets (both profiles x 16 optional-claim / hash-size / 1..4-component / text / client-id combinations) and 32 sets damaged in one claim; thorough tier: 192 valid claims-sets :: boundedCBORRoundTrip()
+//@ bounded[C09,C07] cbor-round-trip : 32 valid claims-sets (both profiles x 16 optional-claim / hash-size / 1..4-component / text / client-id combinations) and 32 sets damaged in one claim, plus 32 valid sets of two registered extension profiles (one derived from each base profile, two extra optional claims); thorough tier: 192 valid claims-sets :: boundedCBORRoundTrip()
 //@ bounded[C10] wire-format : the same 32 valid claims-sets, output parsed by an independent definite-length CBOR reader; thorough tier: 192 valid claims-sets :: boundedWireFormat()
 //@ bounded[C04] acceptance : tokens assembled by an independent CBOR writer, one claim at a time through every value class (absent, null, undefined, boolean, 12 byte-string lengths, wrong major types incl. a byte string where text is expected, out-of-width integers, float), both profiles, unknown extra key, rotated key order, indefinite / trailing / unknown-profile tokens; verdict compared with an independent oracle; thorough tier: every byte-string length 0..70 :: boundedAcceptance()
-//@ bounded[C12] json-round-trip : the same 32 valid claims-sets through JSON and through CBOR->JSON->CBOR; member names, base64, no null members; thorough tier: 192 valid claims-sets :: boundedJSONRoundTrip()
+//@ bounded[C12] json-round-trip : the same 32 valid claims-sets and 32 extension-profile sets through JSON and through CBOR->JSON->CBOR; member names, base64, no null members; thorough tier: 192 valid claims-sets :: boundedJSONRoundTrip()
 
 // ---------------------------------------------------------------- bounded audits of the assumed go-cose / crypto contracts and of library thread-safety
 
